@@ -131,6 +131,12 @@ fn check(args: &Args) -> i32 {
         "C08" => {
             parts.push(run_part(&e2e::sniff::SniffSim, &cfg("sniff"), &known, &mut verdict));
         }
+        "C13" => {
+            parts.push(run_part(&e2e::wire::WireSim, &cfg("wire"), &known, &mut verdict));
+        }
+        "C12" => {
+            parts.push(run_part(&e2e::tlsmode::TlsSim, &cfg("tlsmode"), &known, &mut verdict));
+        }
         "C09" => {
             parts.push(run_part(&e2e::srvfault::SrvFaultSim, &cfg("srvfault"), &known, &mut verdict));
         }
@@ -143,6 +149,11 @@ fn check(args: &Args) -> i32 {
             }
             let sc = poolsim::PoolSim { property: leak(property) };
             parts.push(run_part(&sc, &cfg("poolsim"), &known, &mut verdict));
+            if property == "C17" {
+                parts.push(run_part(&e2e::grammar::GrammarSim, &cfg("grammar"), &known, &mut verdict));
+                // panics seen while running the ordinary end-to-end workload count as well
+                parts.push(run_part(&e2e::E2eSim, &cfg("e2esim"), &known, &mut verdict));
+            }
         }
         _ => {
             eprintln!("HARNESS-ERROR: no check registered for property {}", property);
@@ -228,6 +239,9 @@ fn replay(args: &Args) -> i32 {
         "e2esim" => replay_with(&e2e::E2eSim, &rf, args.machine),
         "shutdown" => replay_with(&e2e::shutdown::ShutdownSim, &rf, args.machine),
         "sniff" => replay_with(&e2e::sniff::SniffSim, &rf, args.machine),
+        "grammar" => replay_with(&e2e::grammar::GrammarSim, &rf, args.machine),
+        "wire" => replay_with(&e2e::wire::WireSim, &rf, args.machine),
+        "tlsmode" => replay_with(&e2e::tlsmode::TlsSim, &rf, args.machine),
         "srvfault" => replay_with(&e2e::srvfault::SrvFaultSim, &rf, args.machine),
         "timersim" => replay_with(&timersim::TimerSim, &rf, args.machine),
         "poolsim" => replay_with(&poolsim::PoolSim { property: leak(&rf.property) }, &rf, args.machine),
@@ -261,6 +275,8 @@ fn determinism(args: &Args) -> i32 {
         "C01" => determinism_with(&e2e::E2eSim, args),
         "C07" => determinism_with(&e2e::shutdown::ShutdownSim, args),
         "C08" => determinism_with(&e2e::sniff::SniffSim, args),
+        "C13" => determinism_with(&e2e::wire::WireSim, args),
+        "C12" => determinism_with(&e2e::tlsmode::TlsSim, args),
         "C09" => determinism_with(&e2e::srvfault::SrvFaultSim, args),
         "C10" | "C11" | "eyesim" => determinism_with(&eyesim::EyeSim { property: "C10" }, args),
         "C02" | "C03" | "C04" | "C05" | "C06" | "C14" | "C15" | "C17" | "C19" => {
